@@ -437,3 +437,430 @@ Proof.
   destruct H as (o & _ & A & <- & W). unfold vote_accept in A. destruct o; cbn in *; try discriminate.
   destruct (voter_has_script k); [reflexivity | discriminate].
 Qed.
+
+(* ======================== mint ======================== *)
+Definition mint_conv_wit : mint_wit -> option wit :=
+  fun w => match w with MNative _ => Some WNative | MPlutus _ r => Some (WPlutus r) end.
+Definition mint_conv (st : mbuilder) : list (bytes * option wit) := map (fun e => (fst e, mint_conv_wit (snd e))) st.
+
+Lemma mint_plutus_conv st : forall s,
+  flat_map mint_entry_redeemer (enum_from s st) = flat_map (wentry_redeemer TMint) (enum_from s (mint_conv st)).
+Proof.
+  induction st as [|[p w] t IH]; intros s; [reflexivity|].
+  cbn [enum_from mint_conv map flat_map]. fold (mint_conv t). rewrite IH. f_equal.
+  unfold mint_entry_redeemer, wentry_redeemer. cbn [fst snd]. destruct w; reflexivity.
+Qed.
+Lemma mint_conv_get p st : al_get bytes_ltb p (mint_conv st) = option_map mint_conv_wit (al_get bytes_ltb p st).
+Proof.
+  induction st as [|[p' w] t IH]; [reflexivity|]. cbn [mint_conv map al_get fst snd]. fold (mint_conv t).
+  destruct (eqb_of bytes_ltb p' p); [reflexivity | exact IH].
+Qed.
+Lemma mint_conv_keys st : map fst (mint_conv st) = map fst st.
+Proof. unfold mint_conv. rewrite map_map. reflexivity. Qed.
+
+Lemma mint_refine ops : let st := fold_left mint_apply ops [] in
+  sortedk bytes_ltb (map fst st) /\ forall p, al_get bytes_ltb p st = mint_final ops p.
+Proof.
+  induction ops as [|o ops IH] using rev_ind; [split; [constructor | reflexivity]|].
+  cbv zeta in *. rewrite fold_left_app. cbn [fold_left]. destruct IH as [S G].
+  unfold mint_final. rewrite final_first_snoc. fold (mint_final ops).
+  unfold mint_apply, mint_step.
+  destruct (mo_zero o); cbn [negb apply_res]; [split; assumption|].
+  rewrite G. destruct (mint_final ops (mo_policy o)) as [cur|] eqn:F.
+  - destruct (mint_compatible cur (mo_wit o)); cbn [apply_res]; split; assumption.
+  - cbn [apply_res]. split; [rewrite (sm_insert_keys bytes_ltb bytes_strict_total); apply sset_insert_sorted; [apply bytes_strict_total | exact S]|].
+    intros p. unfold upd. destruct (eqb_of bytes_ltb (mo_policy o) p) eqn:E.
+    + apply (eqb_of_true _ bytes_strict_total) in E. subst. apply sm_insert_get_same, bytes_strict_total.
+    + apply (eqb_of_false _ bytes_strict_total) in E. rewrite (sm_insert_get_other bytes_ltb bytes_strict_total) by congruence. apply G.
+Qed.
+
+Lemma mint_pointers ops : let st := fold_left mint_apply ops [] in
+  spec_field (mint_wits (mint_final ops)) (mint_body st) /\
+  spec_pointers TMint (mint_wits (mint_final ops)) (fun k => ledger_set_index policy_ledger_ltb k (mint_body st)) (mint_plutus st).
+Proof.
+  cbv zeta. destruct (mint_refine ops) as [S G]. set (st := fold_left mint_apply ops []) in *.
+  assert (ND : NoDup (map fst (mint_conv st))).
+  { rewrite mint_conv_keys. apply sortedk_nodup with (ltb := bytes_ltb); [apply bytes_strict_total | exact S]. }
+  split.
+  - intros p. unfold mint_body, mint_wits. rewrite <- G.
+    split.
+    + intros H E. destruct (al_get bytes_ltb p st) eqn:E2; [discriminate|].
+      apply (al_get_none bytes_ltb bytes_strict_total) in E2. contradiction.
+    + intros H. destruct (al_get bytes_ltb p st) eqn:E; [eapply al_get_some_key; [apply bytes_strict_total | exact E] | cbn in H; congruence].
+  - intros r Ht. unfold mint_plutus, ledger_set_index, policy_ledger_ltb, mint_body. rewrite mint_plutus_conv.
+    rewrite (wentries_spec bytes_ltb bytes_strict_total TMint (mint_conv st) ND).
+    rewrite mint_conv_keys, (sset_sort_of_sorted bytes_ltb bytes_strict_total _ S).
+    split.
+    + intros (_ & k & Hg & Hi). exists k, (r_data r). rewrite mint_conv_get, G in Hg. auto.
+    + intros (k & rid & Hf & Hi & Hd). subst rid. split; [exact Ht|]. exists k. rewrite mint_conv_get, G. auto.
+Qed.
+
+(* ======================== inputs ======================== *)
+Definition wit2 (st : ibuilder) (h : bytes) (o : outpoint) : option (option wit) :=
+  match al_get bytes_ltb h (ib_scripts st) with Some inner => al_get outpoint_ltb o inner | None => None end.
+Definition ib_inv (st : ibuilder) : Prop :=
+  sortedk outpoint_ltb (map fst (ib_inputs st)) /\ NoDup (map fst (ib_scripts st)) /\
+  (forall h inner, In (h, inner) (ib_scripts st) -> NoDup (map fst inner)).
+
+Lemma lm_insert_In {K V} (ltb : K -> K -> bool) (k : K) (v : V) l p : In p (lm_insert ltb k v l) -> p = (k, v) \/ In p l.
+Proof.
+  unfold lm_insert, lm_remove. rewrite in_app_iff, filter_In. cbn [In]. intros [[H _]|[H|[]]]; [right; exact H | left; symmetry; exact H].
+Qed.
+
+Lemma ib_push_inv o hh st : ib_inv st -> ib_inv (ib_push o hh st).
+Proof.
+  intros (S & ND & I). unfold ib_inv, ib_push. cbn [ib_inputs ib_scripts]. split; [|split; assumption].
+  rewrite (sm_insert_keys outpoint_ltb outpoint_st). apply sset_insert_sorted; [apply outpoint_st | exact S].
+Qed.
+Lemma ib_push_get o hh st o' :
+  al_get outpoint_ltb o' (ib_inputs (ib_push o hh st)) = if eqb_of outpoint_ltb o o' then Some hh else al_get outpoint_ltb o' (ib_inputs st).
+Proof.
+  unfold ib_push. cbn [ib_inputs]. destruct (eqb_of outpoint_ltb o o') eqn:E.
+  - apply (eqb_of_true _ outpoint_st) in E. subst. apply sm_insert_get_same, outpoint_st.
+  - apply (eqb_of_false _ outpoint_st) in E. apply (sm_insert_get_other outpoint_ltb outpoint_st). congruence.
+Qed.
+
+Lemma ib_set_wit_inv h o w st : ib_inv st -> ib_inv (ib_set_wit h o w st).
+Proof.
+  intros (S & ND & I). unfold ib_inv, ib_set_wit. cbn [ib_inputs ib_scripts]. split; [exact S|]. split.
+  - apply lm_insert_nodup; [apply bytes_strict_total | exact ND].
+  - intros h' inner' Hin. apply lm_insert_In in Hin as [E|Hin]; [|eapply I, Hin].
+    injection E as -> ->. apply lm_insert_nodup; [apply outpoint_st|].
+    destruct (al_get bytes_ltb h (ib_scripts st)) as [m|] eqn:E; [|constructor].
+    eapply I. eapply al_get_In; [apply bytes_strict_total | exact E].
+Qed.
+Lemma wit2_set_wit h o w st h' o' :
+  wit2 (ib_set_wit h o w st) h' o' =
+  if eqb_of bytes_ltb h h' && eqb_of outpoint_ltb o o' then Some w else wit2 st h' o'.
+Proof.
+  unfold wit2, ib_set_wit. cbn [ib_scripts]. rewrite (lm_insert_get bytes_ltb bytes_strict_total).
+  destruct (eqb_of bytes_ltb h h') eqn:E; cbn [andb]; [|reflexivity].
+  apply (eqb_of_true _ bytes_strict_total) in E. subst h'. rewrite (lm_insert_get outpoint_ltb outpoint_st).
+  destruct (eqb_of outpoint_ltb o o'); [reflexivity|]. destruct (al_get bytes_ltb h (ib_scripts st)); reflexivity.
+Qed.
+
+Lemma spend_refine ops : let st := fold_left ib_step ops ib_empty in
+  ib_inv st /\
+  (forall o, al_get outpoint_ltb o (ib_inputs st) = option_map (option_map fst) (spend_final ops o)) /\
+  (forall o h w, spend_final ops o = Some (Some (h, w)) -> wit2 st h o = Some (Some w)).
+Proof.
+  induction ops as [|op ops IH] using rev_ind.
+  - cbv zeta. cbn. split; [split; [constructor | split; [constructor | intros ? ? []]]|]. split; [reflexivity | discriminate].
+  - cbv zeta in *. rewrite fold_left_app. cbn [fold_left]. destruct IH as (I & B & D).
+    set (st := fold_left ib_step ops ib_empty) in *.
+    unfold spend_final. rewrite final_last_snoc. fold (spend_final ops). cbv beta iota.
+    assert (Hscript : forall h o w,
+      ib_inv (ib_add_script h o w st) /\
+      (forall o', al_get outpoint_ltb o' (ib_inputs (ib_add_script h o w st)) =
+                  option_map (option_map fst) (upd (eqb_of outpoint_ltb) (spend_final ops) o (Some (h, w)) o')) /\
+      (forall o' h' w', upd (eqb_of outpoint_ltb) (spend_final ops) o (Some (h, w)) o' = Some (Some (h', w')) ->
+                        wit2 (ib_add_script h o w st) h' o' = Some (Some w'))).
+    { intros h o w. unfold ib_add_script. split; [apply ib_set_wit_inv, ib_set_wit_inv, ib_push_inv, I|]. split.
+      - intros o'. unfold ib_set_wit at 1 2. cbn [ib_inputs]. rewrite ib_push_get. unfold upd.
+        destruct (eqb_of outpoint_ltb o o'); [reflexivity | apply B].
+      - intros o' h' w'. rewrite !wit2_set_wit. unfold upd. destruct (eqb_of outpoint_ltb o o') eqn:E.
+        + intros H. injection H as <- <-. rewrite (eqb_of_refl _ bytes_strict_total). reflexivity.
+        + intros H. rewrite !andb_false_r. unfold wit2, ib_push. cbn [ib_scripts]. apply (D _ _ _ H). }
+    destruct op as [o|h o|h o rid]; cbn [ib_step in_op_key in_op_val].
+    + split; [apply ib_push_inv, I|]. split.
+      * intros o'. rewrite ib_push_get. unfold upd. destruct (eqb_of outpoint_ltb o o'); [reflexivity | apply B].
+      * intros o' h' w'. unfold upd. destruct (eqb_of outpoint_ltb o o'); [discriminate|]. intros H. apply (D _ _ _ H).
+    + apply Hscript.
+    + apply Hscript.
+Qed.
+
+Lemma ib_index_map_absent l : forall s o, ~ In o (map fst l) -> al_get outpoint_ltb o (ib_index_map s l) = None.
+Proof.
+  induction l as [|[o' x] t IH]; intros s o Hn; [reflexivity|]. cbn [map fst In] in Hn.
+  destruct x as [h|]; cbn [ib_index_map al_get].
+  - destruct (eqb_of outpoint_ltb o' o) eqn:E; [apply (eqb_of_true _ outpoint_st) in E; tauto | apply IH; tauto].
+  - apply IH. tauto.
+Qed.
+
+Lemma ib_index_map_get l : forall s o, NoDup (map fst l) ->
+  al_get outpoint_ltb o (ib_index_map s l) =
+  match al_get outpoint_ltb o l with
+  | Some (Some _) => option_map (N.add s) (index_of outpoint_ltb o (map fst l))
+  | _ => None
+  end.
+Proof.
+  induction l as [|[o' x] t IH]; intros s o ND; [reflexivity|].
+  inversion ND as [|? ? Ho' NDt]; subst. cbn [map fst index_of al_get].
+  destruct x as [h|]; cbn [ib_index_map al_get]; destruct (eqb_of outpoint_ltb o' o) eqn:E.
+  - cbn [option_map]. f_equal. lia.
+  - rewrite (IH (s + 1) o NDt). destruct (al_get outpoint_ltb o t) as [[?|]|]; try reflexivity.
+    destruct (index_of outpoint_ltb o (map fst t)); cbn [option_map]; [f_equal; lia | reflexivity].
+  - apply (eqb_of_true _ outpoint_st) in E. subst. apply ib_index_map_absent, Ho'.
+  - rewrite (IH (s + 1) o NDt). destruct (al_get outpoint_ltb o t) as [[?|]|]; try reflexivity.
+    destruct (index_of outpoint_ltb o (map fst t)); cbn [option_map]; [f_equal; lia | reflexivity].
+Qed.
+
+Lemma ib_plutus_tag st r : In r (ib_plutus st) -> r_tag r = TSpend.
+Proof.
+  unfold ib_plutus. rewrite in_flat_map. intros (hm & _ & H). rewrite in_flat_map in H. destruct H as (ow & _ & H).
+  unfold ib_entry_redeemer in H. destruct (snd ow) as [[|rid]|]; try contradiction.
+  destruct (al_get outpoint_ltb (fst ow) _); [|contradiction]. destruct H as [<-|[]]. reflexivity.
+Qed.
+
+Lemma ib_plutus_spec st : ib_inv st -> forall r, In r (ib_plutus st) <->
+  r_tag r = TSpend /\ exists h o hh, wit2 st h o = Some (Some (WPlutus (r_data r))) /\
+    al_get outpoint_ltb o (ib_inputs st) = Some (Some hh) /\
+    index_of outpoint_ltb o (map fst (ib_inputs st)) = Some (r_index r).
+Proof.
+  intros (S & ND & I) r.
+  assert (NDi : NoDup (map fst (ib_inputs st))) by (apply sortedk_nodup with (ltb := outpoint_ltb); [apply outpoint_st | exact S]).
+  split.
+  - intros Hin. split; [eapply ib_plutus_tag, Hin|]. unfold ib_plutus in Hin. rewrite in_flat_map in Hin.
+    destruct Hin as ([h inner] & Hh & Hin). rewrite in_flat_map in Hin. destruct Hin as ([o w] & Ho & Hr). cbn [fst snd] in *.
+    unfold ib_entry_redeemer in Hr. cbn [fst snd] in Hr. destruct w as [[|rid]|]; try contradiction.
+    rewrite (ib_index_map_get _ 0 o NDi) in Hr.
+    destruct (al_get outpoint_ltb o (ib_inputs st)) as [[hh|]|] eqn:Ei; try contradiction.
+    destruct (index_of outpoint_ltb o (map fst (ib_inputs st))) as [i|] eqn:Ex; cbn [option_map] in Hr; [|contradiction].
+    destruct Hr as [<-|[]]. cbn [r_data r_index]. exists h, o, hh. split; [|split; [exact Ei | rewrite Ex; f_equal; lia]].
+    unfold wit2. rewrite (al_get_nodup bytes_ltb bytes_strict_total h inner _ ND Hh).
+    apply (al_get_nodup outpoint_ltb outpoint_st); [eapply I, Hh | exact Ho].
+  - intros (Ht & h & o & hh & Hw & Hi & Hx). unfold wit2 in Hw.
+    destruct (al_get bytes_ltb h (ib_scripts st)) as [inner|] eqn:Eh; [|discriminate].
+    apply (al_get_In bytes_ltb bytes_strict_total) in Eh. apply (al_get_In outpoint_ltb outpoint_st) in Hw.
+    unfold ib_plutus. rewrite in_flat_map. exists (h, inner). split; [exact Eh|]. rewrite in_flat_map.
+    exists (o, Some (WPlutus (r_data r))). split; [exact Hw|]. unfold ib_entry_redeemer. cbn [fst snd].
+    rewrite (ib_index_map_get _ 0 o NDi), Hi, Hx. cbn [option_map]. left.
+    destruct r as [t i d]. cbn [r_tag r_index r_data] in *. subst t. reflexivity.
+Qed.
+
+Lemma ib_stale_false st : ib_stale st = false ->
+  forall h inner o rid hh, In (h, inner) (ib_scripts st) -> In (o, Some (WPlutus rid)) inner ->
+    al_get outpoint_ltb o (ib_inputs st) = Some (Some hh) -> hh = h.
+Proof.
+  intros Hs h inner o rid hh Hh Ho Hi. destruct (eqb_of bytes_ltb hh h) eqn:E; [apply (eqb_of_true _ bytes_strict_total); exact E|].
+  exfalso. assert (X : ib_stale st = true); [|congruence].
+  unfold ib_stale. apply existsb_exists. exists (h, inner). split; [exact Hh|]. apply existsb_exists.
+  exists (o, Some (WPlutus rid)). split; [exact Ho|]. cbn [fst snd]. rewrite Hi, E. reflexivity.
+Qed.
+
+Lemma spend_field ops : let st := fold_left ib_step ops ib_empty in
+  spec_field (spend_wits (spend_final ops)) (ib_body st).
+Proof.
+  cbv zeta. destruct (spend_refine ops) as ((S & _ & _) & B & _). set (st := fold_left ib_step ops ib_empty) in *.
+  intros o. unfold ib_body, spend_wits. specialize (B o).
+  split.
+  - intros H E. destruct (spend_final ops o); [discriminate|]. cbn in B.
+    apply (al_get_none outpoint_ltb outpoint_st) in B. contradiction.
+  - intros H. destruct (spend_final ops o) eqn:F; [|cbn in H; congruence]. cbn in B.
+    eapply al_get_some_key; [apply outpoint_st | exact B].
+Qed.
+
+Lemma spend_pointers ops : let st := fold_left ib_step ops ib_empty in
+  ib_stale st = false ->
+  spec_pointers TSpend (spend_wits (spend_final ops)) (fun k => ledger_set_index outpoint_ledger_ltb k (ib_body st)) (ib_plutus st).
+Proof.
+  cbv zeta. intros Hs. destruct (spend_refine ops) as (I & B & D). set (st := fold_left ib_step ops ib_empty) in *.
+  pose proof I as (S & ND & Iin).
+  intros r Ht. rewrite (ib_plutus_spec st I). unfold ledger_set_index. rewrite <- outpoint_code_ledger. unfold ib_body.
+  rewrite (sset_sort_of_sorted outpoint_ltb outpoint_st _ S). unfold spend_wits.
+  split.
+  - intros (_ & h & o & hh & Hw & Hi & Hx). exists o, (r_data r). split; [|split; [exact Hx | reflexivity]].
+    assert (hh = h) as ->.
+    { unfold wit2 in Hw. destruct (al_get bytes_ltb h (ib_scripts st)) as [inner|] eqn:Eh; [|discriminate].
+      apply (al_get_In bytes_ltb bytes_strict_total) in Eh. apply (al_get_In outpoint_ltb outpoint_st) in Hw.
+      eapply ib_stale_false; eassumption. }
+    rewrite B in Hi. destruct (spend_final ops o) as [[[h' w']|]|] eqn:F; cbn in Hi; try discriminate.
+    injection Hi as ->. rewrite (D _ _ _ F) in Hw. injection Hw as ->. reflexivity.
+  - intros (o & rid & Hf & Hx & Hd). subst rid. split; [exact Ht|].
+    destruct (spend_final ops o) as [[[h w]|]|] eqn:F; cbn in Hf; try discriminate. injection Hf as ->.
+    exists h, o, h. split; [apply (D _ _ _ F)|]. split; [rewrite B, F; reflexivity | exact Hx].
+Qed.
+
+Lemma spend_locked_ok ops : spec_locked (spend_wits (spend_final ops)) (spend_locked (spend_wits (spend_final ops))).
+Proof. intros o rid H. unfold spend_locked. rewrite H. reflexivity. Qed.
+
+(* ======================== the built transaction ======================== *)
+Lemma tag_code_inj a b : tag_code a = tag_code b -> a = b.
+Proof. destruct a, b; cbn; intros H; try reflexivity; discriminate. Qed.
+Lemma red_eqb_true a b : red_eqb a b = true <-> a = b.
+Proof.
+  unfold red_eqb. destruct a as [t i d], b as [t' i' d']. cbn [r_tag r_index r_data]. split.
+  - intros H. apply andb_true_iff in H as [H Hd]. apply andb_true_iff in H as [Ht Hi].
+    apply N.eqb_eq in Ht, Hi, Hd. apply tag_code_inj in Ht. congruence.
+  - intros H. injection H as -> -> ->. rewrite !N.eqb_refl. reflexivity.
+Qed.
+Lemma dedup_first_In r l : In r (dedup_first l) <-> In r l.
+Proof.
+  induction l as [|a t IH]; cbn [dedup_first In]; [tauto|]. rewrite filter_In, IH. split.
+  - intros [H|[H _]]; auto.
+  - intros [H|H]; [auto|]. destruct (red_eqb a r) eqn:E; [apply red_eqb_true in E; auto | right; split; [exact H | reflexivity]].
+Qed.
+
+Lemma wentries_tag {K} T (l : list (N * (K * option wit))) r : In r (flat_map (wentry_redeemer T) l) -> r_tag r = T.
+Proof.
+  rewrite in_flat_map. intros (e & _ & H). unfold wentry_redeemer in H.
+  destruct (plutus_rid (snd (snd e))); [|contradiction]. destruct H as [<-|[]]. reflexivity.
+Qed.
+Lemma mint_tag st r : In r (mint_plutus st) -> r_tag r = TMint.
+Proof. unfold mint_plutus. rewrite mint_plutus_conv. apply wentries_tag. Qed.
+Lemma vote_tag st r : In r (vote_plutus st) -> r_tag r = TVote.
+Proof.
+  unfold vote_plutus. rewrite in_flat_map. intros (e & _ & H). unfold vote_entry_redeemer in H.
+  destruct (plutus_rid (snd e)); [|contradiction]. destruct H as [<-|[]]. reflexivity.
+Qed.
+
+Lemma tx_redeemers_tag st r : In r (tx_redeemers st) <->
+  match r_tag r with
+  | TSpend => In r (ib_plutus (t_inputs st)) \/ In r (ib_plutus (t_collateral st))
+  | TMint => In r (mint_plutus (t_mint st))
+  | TCert => In r (cert_plutus (t_certs st))
+  | TReward => In r (wd_plutus (t_wdrl st))
+  | TVote => In r (vote_plutus (t_votes st))
+  | TPropose => In r (prop_plutus (t_props st))
+  end.
+Proof.
+  unfold tx_redeemers. rewrite dedup_first_In. unfold all_witness_redeemers. rewrite !in_app_iff. split.
+  - intros H. repeat destruct H as [H|H].
+    + rewrite (ib_plutus_tag _ _ H). auto.
+    + rewrite (ib_plutus_tag _ _ H). auto.
+    + rewrite (mint_tag _ _ H). exact H.
+    + rewrite (wentries_tag _ _ _ H). exact H.
+    + rewrite (wentries_tag _ _ _ H). exact H.
+    + rewrite (vote_tag _ _ H). exact H.
+    + rewrite (wentries_tag _ _ _ H). exact H.
+  - destruct (r_tag r); intros H; tauto.
+Qed.
+
+Lemma run_components ops st flags : run ops = (st, flags) ->
+  t_inputs st = fold_left ib_step (ops_in ops) ib_empty /\
+  t_collateral st = fold_left ib_step (ops_col ops) ib_empty /\
+  t_mint st = fold_left mint_apply (ops_mint ops) [] /\
+  t_certs st = fold_left cert_apply (ops_cert ops) [] /\
+  t_wdrl st = fold_left wd_apply (ops_wd ops) [] /\
+  t_votes st = fold_left vote_apply (ops_vote ops) [] /\
+  t_props st = fold_left prop_apply (ops_prop ops) [].
+Proof.
+  intros H. assert (st = fst (run ops)) as -> by (rewrite H; reflexivity). rewrite run_state.
+  rewrite proj_inputs, proj_collateral, proj_mint, proj_certs, proj_wdrl, proj_votes, proj_props. repeat split; reflexivity.
+Qed.
+
+Lemma build_fields st b : tx_build st = Ok b ->
+  b_inputs b = ib_body (t_inputs st) /\ b_collateral b = ib_body (t_collateral st) /\ b_policies b = mint_body (t_mint st) /\
+  b_certs b = cert_body (t_certs st) /\ b_withdrawals b = wd_body (t_wdrl st) /\ b_voters b = vote_body (t_votes st) /\
+  b_proposals b = prop_body (t_props st) /\ b_redeemers b = tx_redeemers st.
+Proof.
+  unfold tx_build. destruct (tx_has_plutus st && _); [discriminate|]. intros H. injection H as <-. cbn. repeat split; reflexivity.
+Qed.
+
+Lemma spec_pointers_same {K} T (final : K -> option (option wit)) ix R R' :
+  (forall r, r_tag r = T -> (In r R <-> In r R')) -> spec_pointers T final ix R' -> spec_pointers T final ix R.
+Proof. intros E P r Ht. rewrite (E r Ht). apply P, Ht. Qed.
+
+Lemma collateral_silent ops : known_collateral_plutus ops = false -> ib_plutus (t_collateral (fst (run ops))) = [].
+Proof. unfold known_collateral_plutus. destruct (ib_plutus _); [reflexivity | discriminate]. Qed.
+
+(* ---- one theorem per purpose ---- *)
+Theorem c10_spend ops st flags b : run ops = (st, flags) -> tx_build st = Ok b ->
+  known_collateral_plutus ops = false -> known_stale_spend ops = false ->
+  let sf := spend_wits (spend_final (ops_in ops)) in
+  spec_field sf (b_inputs b) /\
+  spec_pointers TSpend sf (fun k => ledger_set_index outpoint_ledger_ltb k (b_inputs b)) (b_redeemers b) /\
+  spec_locked sf (spend_locked sf).
+Proof.
+  intros Hr Hb K1 K3. cbv zeta. destruct (run_components _ _ _ Hr) as (Ei & _). destruct (build_fields _ _ Hb) as (-> & _ & _ & _ & _ & _ & _ & ->).
+  pose proof (collateral_silent _ K1) as Hc. unfold known_stale_spend in K3. rewrite Hr in Hc, K3. cbn [fst] in Hc, K3.
+  rewrite Ei in *. split; [apply spend_field|]. split; [|apply spend_locked_ok].
+  eapply spec_pointers_same; [|apply spend_pointers, K3].
+  intros r Ht. rewrite tx_redeemers_tag, Ht, Hc, Ei. cbn [In]. tauto.
+Qed.
+
+Theorem c10_mint ops st flags b : run ops = (st, flags) -> tx_build st = Ok b ->
+  let mf := mint_wits (mint_final (ops_mint ops)) in
+  spec_field mf (b_policies b) /\
+  spec_pointers TMint mf (fun k => ledger_set_index policy_ledger_ltb k (b_policies b)) (b_redeemers b).
+Proof.
+  intros Hr Hb. cbv zeta. destruct (run_components _ _ _ Hr) as (_ & _ & E & _). destruct (build_fields _ _ Hb) as (_ & _ & -> & _ & _ & _ & _ & ->).
+  rewrite E. destruct (mint_pointers (ops_mint ops)) as [F P]. split; [exact F|].
+  eapply spec_pointers_same; [|exact P]. intros r Ht. rewrite tx_redeemers_tag, Ht, E. tauto.
+Qed.
+
+Theorem c10_cert ops st flags b : run ops = (st, flags) -> tx_build st = Ok b ->
+  let cf := cert_final (ops_cert ops) in
+  spec_field cf (b_certs b) /\
+  spec_pointers TCert cf (fun k => ledger_seq_index cert_ltb k (b_certs b)) (b_redeemers b) /\
+  spec_locked cf ledger_cert_script_locked.
+Proof.
+  intros Hr Hb. cbv zeta. destruct (run_components _ _ _ Hr) as (_ & _ & _ & E & _). destruct (build_fields _ _ Hb) as (_ & _ & _ & -> & _ & _ & _ & ->).
+  rewrite E. destruct (cert_pointers (ops_cert ops)) as [F P]. split; [exact F|]. split; [|apply cert_locked].
+  eapply spec_pointers_same; [|exact P]. intros r Ht. rewrite tx_redeemers_tag, Ht, E. tauto.
+Qed.
+
+Theorem c10_reward ops st flags b : run ops = (st, flags) -> tx_build st = Ok b ->
+  let wf := wd_final (ops_wd ops) in
+  spec_field wf (b_withdrawals b) /\
+  spec_pointers TReward wf (fun k => ledger_set_index racct_ledger_ltb k (b_withdrawals b)) (b_redeemers b) /\
+  spec_locked wf (fun a => cr_script (ra_cred a)).
+Proof.
+  intros Hr Hb. cbv zeta. destruct (run_components _ _ _ Hr) as (_ & _ & _ & _ & E & _). destruct (build_fields _ _ Hb) as (_ & _ & _ & _ & -> & _ & _ & ->).
+  rewrite E. destruct (wd_pointers (ops_wd ops)) as [F P]. split; [exact F|]. split; [|apply wd_locked].
+  eapply spec_pointers_same; [|exact P]. intros r Ht. rewrite tx_redeemers_tag, Ht, E. tauto.
+Qed.
+
+Theorem c10_vote ops st flags b : run ops = (st, flags) -> tx_build st = Ok b ->
+  let vf := vote_final (ops_vote ops) in
+  spec_field vf (b_voters b) /\
+  spec_pointers TVote vf (fun k => ledger_set_index voter_ledger_ltb k (b_voters b)) (b_redeemers b) /\
+  spec_locked vf voter_has_script.
+Proof.
+  intros Hr Hb. cbv zeta. destruct (run_components _ _ _ Hr) as (_ & _ & _ & _ & _ & E & _). destruct (build_fields _ _ Hb) as (_ & _ & _ & _ & _ & -> & _ & ->).
+  rewrite E. destruct (vote_pointers (ops_vote ops)) as [F P]. split; [exact F|]. split; [|apply vote_locked].
+  eapply spec_pointers_same; [|exact P]. intros r Ht. rewrite tx_redeemers_tag, Ht, E. tauto.
+Qed.
+
+Theorem c10_propose ops st flags b : run ops = (st, flags) -> tx_build st = Ok b ->
+  let pf := prop_final (ops_prop ops) in
+  spec_field pf (b_proposals b) /\
+  spec_pointers TPropose pf (fun k => ledger_seq_index prop_rust_ltb k (b_proposals b)) (b_redeemers b) /\
+  (known_prop_nonscript ops = false -> spec_locked pf prop_has_script_hash).
+Proof.
+  intros Hr Hb. cbv zeta. destruct (run_components _ _ _ Hr) as (_ & _ & _ & _ & _ & _ & E). destruct (build_fields _ _ Hb) as (_ & _ & _ & _ & _ & _ & -> & ->).
+  rewrite E. destruct (prop_pointers (ops_prop ops)) as [F P]. split; [exact F|]. split.
+  - eapply spec_pointers_same; [|exact P]. intros r Ht. rewrite tx_redeemers_tag, Ht, E. tauto.
+  - intros K2. apply prop_locked. unfold known_prop_nonscript in K2. rewrite Hr in K2. cbn [fst] in K2. rewrite E in K2. exact K2.
+Qed.
+
+(* ---- no two redeemers share a pointer ---- *)
+Lemma pointers_unique {K} (T : tag) (final : K -> option (option wit)) (ix : K -> option N) (R : list redeemer) :
+  spec_pointers T final ix R -> (forall k1 k2 i, ix k1 = Some i -> ix k2 = Some i -> k1 = k2) ->
+  forall r1 r2, In r1 R -> In r2 R -> r_tag r1 = T -> r_tag r2 = T -> r_index r1 = r_index r2 -> r1 = r2.
+Proof.
+  intros P Inj r1 r2 H1 H2 T1 T2 E.
+  apply (P r1 T1) in H1 as (k1 & d1 & F1 & I1 & D1). apply (P r2 T2) in H2 as (k2 & d2 & F2 & I2 & D2).
+  rewrite E in I1. assert (k1 = k2) by (eapply Inj; eassumption). subst k2. rewrite F1 in F2. injection F2 as <-.
+  rewrite (redeemer_eta r1), (redeemer_eta r2). congruence.
+Qed.
+
+Theorem c10_unique ops st flags b : run ops = (st, flags) -> tx_build st = Ok b ->
+  known_collateral_plutus ops = false -> known_stale_spend ops = false ->
+  spec_unique (b_redeemers b).
+Proof.
+  intros Hr Hb K1 K3 r1 r2 H1 H2 Et Ei.
+  destruct (c10_spend _ _ _ _ Hr Hb K1 K3) as (_ & Ps & _). destruct (c10_mint _ _ _ _ Hr Hb) as (_ & Pm).
+  destruct (c10_cert _ _ _ _ Hr Hb) as (_ & Pc & _). destruct (c10_reward _ _ _ _ Hr Hb) as (_ & Pw & _).
+  destruct (c10_vote _ _ _ _ Hr Hb) as (_ & Pv & _). destruct (c10_propose _ _ _ _ Hr Hb) as (_ & Pp & _).
+  destruct (r_tag r1) eqn:T1; symmetry in Et.
+  - eapply (pointers_unique TSpend _ _ _ Ps); try eassumption. intros k1 k2 i. unfold ledger_set_index. apply index_of_inj. rewrite <- outpoint_code_ledger. apply outpoint_st.
+  - eapply (pointers_unique TMint _ _ _ Pm); try eassumption. intros k1 k2 i. unfold ledger_set_index. apply index_of_inj, bytes_strict_total.
+  - eapply (pointers_unique TCert _ _ _ Pc); try eassumption. intros k1 k2 i. unfold ledger_seq_index. apply index_of_inj, cert_st.
+  - eapply (pointers_unique TReward _ _ _ Pw); try eassumption. intros k1 k2 i. unfold ledger_set_index. apply index_of_inj, racct_ledger_st.
+  - eapply (pointers_unique TVote _ _ _ Pv); try eassumption. intros k1 k2 i. unfold ledger_set_index. apply index_of_inj, voter_ledger_st.
+  - eapply (pointers_unique TPropose _ _ _ Pp); try eassumption. intros k1 k2 i. unfold ledger_seq_index. apply index_of_inj, prop_st.
+Qed.
+
+(* ---- the full statement ---- *)
+Theorem c10_statement_holds ops st flags b : run ops = (st, flags) -> tx_build st = Ok b ->
+  known_collateral_plutus ops = false -> known_stale_spend ops = false -> known_prop_nonscript ops = false ->
+  C10_statement ops b.
+Proof.
+  intros Hr Hb K1 K3 K2. unfold C10_statement. cbv zeta.
+  destruct (c10_spend _ _ _ _ Hr Hb K1 K3) as (A1 & A2 & A3). destruct (c10_mint _ _ _ _ Hr Hb) as (B1 & B2).
+  destruct (c10_cert _ _ _ _ Hr Hb) as (C1 & C2 & C3). destruct (c10_reward _ _ _ _ Hr Hb) as (D1 & D2 & D3).
+  destruct (c10_vote _ _ _ _ Hr Hb) as (E1 & E2 & E3). destruct (c10_propose _ _ _ _ Hr Hb) as (F1 & F2 & F3).
+  exact (conj (conj A1 (conj A2 A3)) (conj (conj B1 B2) (conj (conj C1 (conj C2 C3)) (conj (conj D1 (conj D2 D3))
+         (conj (conj E1 (conj E2 E3)) (conj (conj F1 (conj F2 (F3 K2))) (c10_unique _ _ _ _ Hr Hb K1 K3))))))).
+Qed.
